@@ -182,11 +182,12 @@ class CoordGeo(object):
                             round(self.ell_ht, n), round(self.orth_ht, n))
 
     def notation(self, notation):
-        if type(self.lat) == float:  # Decimal Degrees (float)
+        if type(self.lat) == notation:  # Already in requested notation
+            new_lat = self.lat
+            new_lon = self.lon
+        elif type(self.lat) == float:  # Decimal Degrees (float)
             # Use functions to convert from Decimal Degrees (float)
-            if notation == float:
-                pass
-            elif notation == DECAngle:
+            if notation == DECAngle:
                 new_lat = DECAngle(self.lat)
                 new_lon = DECAngle(self.lon)
             elif notation == HPAngle:
